@@ -170,6 +170,19 @@ def stepTop (s : Sess) (toks : List String) : Sess × String :=
           let nb := dim + 1
           ({ dim := dim, mask := mask, cfg := stdCfg nb mask, m := Map.empty nb 6 (n + 1) }, "ok")
       | _, _, _ => (s, "bad-op")
+  | "load" :: dim :: n :: mask :: rest =>
+      match dim.toNat?, n.toNat?, mask.toNat? with
+      | some dim, some n, some mask =>
+          let nb := dim + 1
+          let groups := (rest.splitBy (fun a b => a ≠ ";" ∧ b ≠ ";")).filter (· ≠ [";"])
+          let nums := groups.map (fun g => g.filterMap String.toNat?)
+          if nums.length ≠ nb + 1 ∨ nums.any (fun g => g.length ≠ n + 1) then (s, "bad-op") else
+          let m0 : Map Val := Map.empty nb 6 (n + 1)
+          let m1 := { m0 with
+            b := ((nums.take nb).map List.toArray).toArray
+            u := ((nums.getD nb []).map (fun x => decide (x ≠ 0))).toArray }
+          ({ dim := dim, mask := mask, cfg := stdCfg nb mask, m := m1 }, "ok")
+      | _, _, _ => (s, "bad-op")
   | ["setb", i, d, v] =>
       match i.toNat?, d.toNat?, v.toNat? with
       | some i, some d, some v =>
@@ -204,7 +217,10 @@ def stepTop (s : Sess) (toks : List String) : Sess × String :=
   | _ =>
     -- `f`-prefixed force variants behave like a single-op transaction
     let toks' := match toks with
-      | t :: rest => if t ∈ ["flink", "funlink", "fsew", "funsew"] then (t.drop 1).toString :: rest else toks
+      | t :: rest =>
+          if t ∈ ["flink", "funlink", "fsew", "funsew"] then (t.drop 1).toString :: rest
+          else if t ∈ ["orbitnt", "vidnt", "eidnt", "fidnt", "volidnt"] then (t.dropEnd 2).toString :: rest
+          else toks
       | [] => toks
     match txOp s toks' with
     | some p =>
